@@ -835,14 +835,14 @@ func init() {
 			idsA := []string{"v3/f0/S2/nosmp", "v2/f0/S1/smp", "v3/f200/S1/nosmp"}
 			idsB := []string{"peer/v3/refinit/f0/S2", "peer/v3/realinit/f0/S1", "peer/v2/refinit/f0/S1", "peer/v2/realinit/f150/S1"}
 			if r.Tier == "thorough" {
-				idsA = []string{"v3/f0/S3/smp", "v2/f0/S3/smp", "v3/f200/S2/nosmp", "v2/f150/S2/smp"}
+				idsA = []string{"v2/f150/S1/smp", "v3/f200/S2/nosmp", "v2/f0/S2/smp", "v3/f0/S3/nosmp"}
 				idsB = []string{"peer/v3/refinit/f0/S3", "peer/v3/realinit/f0/S3", "peer/v2/refinit/f0/S3", "peer/v2/realinit/f0/S3", "peer/v3/realinit/f150/S2", "peer/v2/refinit/f150/S2"}
-			}
-			for _, id := range idsA {
-				r.explore(verifC10Sys(id, r.Seed))
 			}
 			for _, id := range idsB {
 				r.explore(verifC10bSys(id, r.Seed))
+			}
+			for _, id := range idsA {
+				r.explore(verifC10Sys(id, r.Seed))
 			}
 		},
 	}
